@@ -16,55 +16,46 @@ abbrev cfg := Generated.C17.cfg
 /-- the regenerated constants of dump.go are the ones the lemmas were proved for -/
 theorem generated_cfg_is_std : Generated.C17.cfg = Dump.stdCfg := by decide
 
-/-- `&` escaping is undone by the final unescape: for a buffer that is the concatenation of `writeString`
-    arguments (every `&` escaped, once), `htmlUnescape` returns the concatenation of the arguments. -/
-theorem amp_escape_inverse (l : List Bytes) : htmlUnescape ((l.map (ws cfg)).flatten) = l.flatten := by
-  rw [show cfg = stdCfg from generated_cfg_is_std]; exact unescape_ws_concat l
+/-- the writer appends its arguments as they are: no escaping, no whole-buffer post-pass -/
+theorem writer_plain (s : Bytes) (ff : Nat → Bytes) (f : File) : ws cfg s = s ∧ dump cfg ff f = dumpBuffer cfg ff f :=
+  ⟨rfl, rfl⟩
 
-/-- regression (was: `&` in a type annotation came back as `&amp;`, escaped by typeName's own builder and
-    again by the caller): `typeName` writes its annotations raw, the caller escapes once, the final text of
-    `i32 (a = "&")` is `i32(a = "&")`; and `cpp_type` is written (list: after `>`, map/set: after the keyword). -/
+/-- regression (was: `&` in a type annotation came back as `&amp;`; `cpp_type` was dropped): the text of
+    `i32 (a = "&")` is `i32(a = "&")`; `cpp_type` is written (list: after `>`, map/set: after the keyword). -/
 theorem type_annotation_escaped_once :
-    finish cfg (ws cfg (typeName cfg (.mk [105, 51, 50] none none [] [⟨[97], [[38]]⟩])))
-        = [105, 51, 50, 40, 97, 32, 61, 32, 34, 38, 34, 41]
-    ∧ finish cfg (ws cfg (typeName cfg (.mk [108, 105, 115, 116] none (some (.mk [105, 51, 50] none none [] [])) [97] [])))
+    typeName cfg (.mk [105, 51, 50] none none [] [⟨[97], [[38]]⟩]) = [105, 51, 50, 40, 97, 32, 61, 32, 34, 38, 34, 41]
+    ∧ typeName cfg (.mk [108, 105, 115, 116] none (some (.mk [105, 51, 50] none none [] [])) [97] [])
         = [108, 105, 115, 116, 60, 105, 51, 50, 62, 32, 99, 112, 112, 95, 116, 121, 112, 101, 32, 34, 97, 34]
-    ∧ finish cfg (ws cfg (typeName cfg (.mk [115, 101, 116] none (some (.mk [105, 51, 50] none none [] [])) [97] [])))
+    ∧ typeName cfg (.mk [115, 101, 116] none (some (.mk [105, 51, 50] none none [] [])) [97] [])
         = [115, 101, 116, 32, 99, 112, 112, 95, 116, 121, 112, 101, 32, 34, 97, 34, 60, 105, 51, 50, 62] := by
   decide
 
-/-- the final text of a DumpSafe literal: `"`, the value with every `"` written `\"`, `"` -/
-theorem dump_literal_text (v : Bytes) (h : DumpSafe v = true) : dumpLiteral cfg v = 34 :: (qEsc v ++ [34]) := by
-  rw [show cfg = stdCfg from generated_cfg_is_std]; exact finish_lit v h
-
-/-
-  Full statement (FALSE on the model and on the code, see the witnesses below):
-    ∀ v rest, readLiteral (dumpLiteral cfg v ++ rest) = some (v, rest)
--/
-/-- literal_roundtrip (partial: DumpSafe): the dumped text of `v` lexes as a `Literal` whatever follows it,
-    and `pegText` returns `v`. -/
-theorem literal_roundtrip (v rest : Bytes) (h : DumpSafe v = true) :
+/-- literal_roundtrip: the text `quoteLiteral` writes for `v` lexes as a `Literal` whatever follows it, and
+    `pegText` returns `v` — for every `Representable v` (not ending in a backslash; for one of the two quote
+    kinds, no quote preceded by an odd number of backslashes). -/
+theorem literal_roundtrip (v rest : Bytes) (h : Representable v = true) :
     readLiteral (dumpLiteral cfg v ++ rest) = some (v, rest) := by
-  rw [dump_literal_text v h]; exact readLiteral_final v rest (DumpSafe.lexSafe h)
+  rw [show cfg = stdCfg from generated_cfg_is_std]; exact readLiteral_quoteVal v rest h
 
-example : DumpSafe [97, 34, 98, 39, 38, 60, 35, 92, 92, 110, 38, 97, 109, 112, 59, 38, 35, 51, 52, 59] = true := by decide
+/-- literal_roundtrip for everything the parser can read (FULL): whatever text the `Literal` rule captures
+    between q…q (q = `"` or `'`), the value `pegText` makes of it is written back by `quoteLiteral` as a
+    literal that reads as the same value. -/
+theorem literal_roundtrip_parsed (q : Nat) (hq : q = 34 ∨ q = 39) (raw r0 : Bytes)
+    (hlex : lexBody q (raw ++ q :: r0) = some (raw, r0)) (rest : Bytes) :
+    readLiteral (dumpLiteral cfg (pegText q raw) ++ rest) = some (pegText q raw, rest) :=
+  literal_roundtrip _ rest (pegText_representable q hq raw r0 hlex)
 
-/-- one decided counterexample per shape excluded by `DumpSafe`:
-    `a\"b` is re-read as `a"b`; `##34;` as `"`; `#OUTQUOTES` ends the literal early; a trailing backslash
-    leaves the literal unterminated. -/
+/-- regression: the four literals that used to be damaged (`a\"b`, `##34;`, `#OUTQUOTES`, `#OUTQUOTES#`) are
+    Representable and are written `'a\"b'`, `"##34;"`, `"#OUTQUOTES"`, `"#OUTQUOTES#"`; a value ending in a
+    backslash (which no literal can denote) is not Representable. -/
 theorem literal_roundtrip_iff_safe_witnesses :
-    (DumpSafe [97, 92, 34, 98] = false ∧ readLiteral (dumpLiteral cfg [97, 92, 34, 98]) = some ([97, 34, 98], []))
-    ∧ (DumpSafe [35, 35, 51, 52, 59] = false ∧ readLiteral (dumpLiteral cfg [35, 35, 51, 52, 59]) = some ([34], []))
-    ∧ (DumpSafe [35, 79, 85, 84, 81, 85, 79, 84, 69, 83] = false
-        ∧ readLiteral (dumpLiteral cfg [35, 79, 85, 84, 81, 85, 79, 84, 69, 83]) = some ([], [34]))
-    ∧ (DumpSafe [97, 92] = false ∧ readLiteral (dumpLiteral cfg [97, 92]) = none) := by
-  have e1 : dumpLiteral cfg [97, 92, 34, 98] = [34, 97, 92, 34, 98, 34] := by decide
-  have e2 : dumpLiteral cfg [35, 35, 51, 52, 59] = [34, 92, 34, 34] := by decide
-  have e3 : dumpLiteral cfg [35, 79, 85, 84, 81, 85, 79, 84, 69, 83] = [34, 34, 34] := by decide
-  have e4 : dumpLiteral cfg [97, 92] = [34, 97, 92, 34] := by decide
-  rw [e1, e2, e3, e4]
-  refine ⟨⟨by decide, ?_⟩, ⟨by decide, ?_⟩, ⟨by decide, ?_⟩, ⟨by decide, ?_⟩⟩ <;>
-    simp [readLiteral, lexBody, pegText, pegLoop]
+    (Representable [97, 92, 34, 98] = true ∧ dumpLiteral cfg [97, 92, 34, 98] = [39, 97, 92, 34, 98, 39])
+    ∧ (Representable [35, 35, 51, 52, 59] = true ∧ dumpLiteral cfg [35, 35, 51, 52, 59] = [34, 35, 35, 51, 52, 59, 34])
+    ∧ (Representable [35, 79, 85, 84, 81, 85, 79, 84, 69, 83] = true
+        ∧ dumpLiteral cfg [35, 79, 85, 84, 81, 85, 79, 84, 69, 83] = [34, 35, 79, 85, 84, 81, 85, 79, 84, 69, 83, 34])
+    ∧ Representable [35, 79, 85, 84, 81, 85, 79, 84, 69, 83, 35] = true
+    ∧ Representable [97, 92] = false ∧ Representable [92, 34, 92, 39] = false := by
+  decide
 
 /-- annotation_roundtrip: the `k = v` pairs written by printAnnotation (one per value, keys repeated),
     regrouped by `Annotations.Append` in reading order, give back the list — for every list with
@@ -106,30 +97,26 @@ example : (readNumber (fun _ => 7) (dblText [57, 50, 50, 51, 51, 55, 50, 48, 51,
 
 /-- annotation_roundtrip on the text: the dumped annotation list — `(k = "v", …)`, one pair per value — is
     read by the `Annotations` rule + `parseAnnotations` as the same list (keys grouped again, order kept),
-    for lists as the parser builds them (distinct keys, no empty value list) whose values are DumpSafe. -/
+    for lists as the parser builds them (distinct keys, no empty value list, Representable values). -/
 theorem annotation_text_roundtrip (l : List Ann) (hne : l ≠ []) (hwf : WFAnn l) (hok : AnnsOK l) (rest : Bytes) :
     readAnnotations (dumpAnnotations cfg l ++ rest) = some (l, skipIndent rest) := by
-  rw [show cfg = stdCfg from generated_cfg_is_std, dumpAnnotations_final l hok.safe hwf.2]
+  rw [show cfg = stdCfg from generated_cfg_is_std, dumpAnnotations_final l hwf.2]
   exact readAnnotations_final l hne hwf hok.pairs rest
 
-/-- constvalue_roundtrip: every constant value (all six kinds, nested) whose literals are DumpSafe, whose
-    integers fit int64, whose identifiers are identifiers and whose doubles satisfy the FormatFloat/ParseFloat
-    assumptions (`GoodCV`, `SafeCV`) is read back from its dumped text as itself. -/
-theorem constvalue_roundtrip (ff : Nat → Bytes) (pf : Bytes → Nat) (cv : CV) (hg : GoodCV ff pf cv) (hs : SafeCV ff cv)
+/-- constvalue_roundtrip: every constant value (all six kinds, nested) whose literals are Representable,
+    whose integers fit int64, whose identifiers are identifiers and whose doubles satisfy the
+    FormatFloat/ParseFloat assumptions (`GoodCV`) is read back from its dumped text as itself. -/
+theorem constvalue_roundtrip (ff : Nat → Bytes) (pf : Bytes → Nat) (cv : CV) (hg : GoodCV ff pf cv)
     (rest : Bytes) (ht : Term rest) (f : Nat) (hf : cvSize cv ≤ f) :
     readCV pf f (dumpCV cfg ff cv ++ rest) = some (cv, skipIndent rest) := by
-  rw [show cfg = stdCfg from generated_cfg_is_std, dumpCV_final ff cv hs]
+  rw [show cfg = stdCfg from generated_cfg_is_std, dumpCV_final ff cv]
   have := readCV_final ff pf cv hg rest ht f hf
   rwa [reread_id] at this
 
-/-- the hypotheses are satisfiable: `{"a\"b": [1, -2], x.Y: "&amp;"}`-like value -/
-example : GoodCV (fun _ => []) (fun _ => 0) (.map [(.lit [97, 34, 98], .list [.int 1, .int (-2)]), (.ident [120, 46, 89], .lit [38, 97, 109, 112, 59])])
-    ∧ SafeCV (fun _ => []) (.map [(.lit [97, 34, 98], .list [.int 1, .int (-2)]), (.ident [120, 46, 89], .lit [38, 97, 109, 112, 59])]) := by
-  refine ⟨?_, ?_⟩
-  · simp only [GoodCV, GoodPairs, GoodItems, and_true]
-    refine ⟨⟨by decide, by decide⟩, ⟨⟨by omega, by omega⟩, by omega, by omega⟩, ⟨120, [46, 89], rfl, by decide, by decide⟩, by decide, by decide⟩
-  · simp only [SafeCV, SafePairs, SafeItems, and_true]
-    refine ⟨by decide, by decide, by decide⟩
+/-- the hypotheses are satisfiable: `{"a\"b": [1, -2], x.Y: '\"'}`-like value -/
+example : GoodCV (fun _ => []) (fun _ => 0) (.map [(.lit [97, 34, 98], .list [.int 1, .int (-2)]), (.ident [120, 46, 89], .lit [92, 34])]) := by
+  simp only [GoodCV, GoodPairs, GoodItems, and_true]
+  refine ⟨by decide, ⟨⟨by omega, by omega⟩, by omega, by omega⟩, ⟨120, [46, 89], rfl, by decide, by decide⟩, by decide⟩
 
 /-
   dump_parse (FULL statement, not proved: the reader of whole files is C03's model, not built here):
@@ -139,17 +126,17 @@ example : GoodCV (fun _ => []) (fun _ => 0) (.map [(.lit [97, 34, 98], .list [.i
   escaped twice, cpp_type dropped, throws separator, 2^63 doubles, placeholder text, `\"`).
 -/
 /-- dump_parse (partial): the tail of a constant or field definition as the dumper writes it — the value
-    followed by the annotation list, passed through the post-passes of DumpIDL *together* — is read back as
-    that value followed by that annotation list.
-    Covered by theorem: constant values of all six kinds (nested), annotation lists, literals, numbers and their
-    concatenation.  Covered by correspondence + oracle only: includes, namespaces, cpp_include, typedef, const,
-    enum, struct/union/exception and service/function layouts, type expressions, comments. -/
+    followed by the annotation list — is read back as that value followed by that annotation list.
+    Covered by theorem: constant values of all six kinds (nested), annotation lists, literals (all the parser can
+    read), numbers and their concatenation.  Covered by correspondence + oracle only: includes, namespaces,
+    cpp_include, typedef, const, enum, struct/union/exception and service/function layouts, type expressions, comments. -/
 theorem dump_parse_partial (ff : Nat → Bytes) (pf : Bytes → Nat) (cv : CV) (l : List Ann)
-    (hg : GoodCV ff pf cv) (hs : SafeCV ff cv) (hne : l ≠ []) (hwf : WFAnn l) (hok : AnnsOK l)
+    (hg : GoodCV ff pf cv) (hne : l ≠ []) (hwf : WFAnn l) (hok : AnnsOK l)
     (rest : Bytes) (f : Nat) (hf : cvSize cv ≤ f) :
-    ∃ r1, readCV pf f (finish cfg (printCV cfg ff cv ++ printAnnotation cfg l) ++ rest) = some (cv, r1)
+    ∃ r1, readCV pf f ((printCV cfg ff cv ++ printAnnotation cfg l) ++ rest) = some (cv, r1)
       ∧ readAnnotations r1 = some (l, skipIndent rest) := by
-  rw [show cfg = stdCfg from generated_cfg_is_std, finish_cv_anns ff cv l hs hok.safe hwf.2]
+  rw [show cfg = stdCfg from generated_cfg_is_std, printCV_final,
+    show printAnnotation stdCfg l = finalAnn l from dumpAnnotations_final l hwf.2]
   refine ⟨finalAnn l ++ rest, ?_, readAnnotations_final l hne hwf hok.pairs rest⟩
   have ht : Term (finalAnn l ++ rest) := by
     unfold finalAnn
@@ -158,12 +145,10 @@ theorem dump_parse_partial (ff : Nat → Bytes) (pf : Bytes → Nat) (cv : CV) (
     | cons a r => simp [Term]
   rw [List.append_assoc, readCV_final ff pf cv hg _ ht f hf, skipIndent_finalAnn l hne, reread_id]
 
-/-- dump_accepted (partial): the dumped text of a good value is accepted by the reader model (no lexing
-    failure, no ParseInt error).  Acceptance of whole files by the parser and by the semantic checker is
-    judged by the oracle only.  Non-acceptance witnesses: `literal_roundtrip_iff_safe_witnesses` (trailing
-    backslash) and the 2^63 example above. -/
-theorem dump_accepted_partial (ff : Nat → Bytes) (pf : Bytes → Nat) (cv : CV) (hg : GoodCV ff pf cv) (hs : SafeCV ff cv)
+/-- dump_accepted (partial): the dumped text of a good value is accepted by the reader model.  Acceptance of
+    whole files by the parser and by the semantic checker is judged by the oracle only. -/
+theorem dump_accepted_partial (ff : Nat → Bytes) (pf : Bytes → Nat) (cv : CV) (hg : GoodCV ff pf cv)
     (rest : Bytes) (ht : Term rest) : (readCV pf (cvSize cv) (dumpCV cfg ff cv ++ rest)).isSome = true := by
-  rw [constvalue_roundtrip ff pf cv hg hs rest ht _ (Nat.le_refl _)]; rfl
+  rw [constvalue_roundtrip ff pf cv hg rest ht _ (Nat.le_refl _)]; rfl
 
 end Props.C17
